@@ -7,7 +7,7 @@
 (* ====================================================================== *)
 Require Import String.
 Require Import Arith Lia List Bool ZArith QArith Qcanon.
-From TK Require Import Mat_Sums Mat_Core Mat_Qc Proj_Model Proj_Spec Proj_Proof Proj_Proof_Range Proj_Table Proj Proj_Tie.
+From TK Require Import Mat_Sums Mat_Core Mat_Qc Proj_Model Proj_Spec Proj_Proof Proj_Proof_Range Proj_Proof_Offset Proj_Table Proj Proj_Tie.
 Import ListNotations.
 Local Open Scope nat_scope.
 
@@ -354,3 +354,117 @@ Print Assumptions C07_tail_scale_equivariant.
 
 Example C07_tail_scale_nonvacuous : wf_mat 3 2 ex7_P /\ wf_mat 4 3 ex7_X.
 Proof. split; (split; [reflexivity|repeat constructor]). Qed.
+
+(* ---------------------------------------------------------------------------------------------- *)
+(* Wave 3: data with a large common OFFSET.                                                        *)
+(* 13. `project_hoisted_mean_equal`: a rewrite of MatrixProjectionImplementation that precomputes   *)
+(*     P^T mean and returns P^T x - P^T mean is, over EVERY exact field, the same function as the   *)
+(*     shipped P^T (x - mean) — at function level and for the executed lists on every input.  The    *)
+(*     exact model therefore cannot distinguish the two; they differ in binary64 only, by            *)
+(*     eps * |P|^T (|x| + |mean|), which is not relative to the output |P|^T |x - mean|.  The        *)
+(*     property's "reproduces row i" is "to rounding error of the OUTPUT": that is what the          *)
+(*     tolerance of the check (theorems 15, 16) encodes.                                             *)
+Theorem project_hoisted_mean_equal :
+  forall (F : Type) (Fo : FieldOps F) (Ff : IsField F) (D d : nat) (P : mat F) (Pl : list (list F))
+         (m x : vec F) (ml xl : list F),
+    (forall c, mpi_project_hoisted D P m x c = mpi_project D P m x c) /\
+    mpi_project_hoisted_exec D d Pl ml xl = mpi_project_exec D d Pl ml xl.
+Proof. exact @hoisted_mean_all. Qed.
+Print Assumptions project_hoisted_mean_equal.
+
+(* 14. offset invariance, function level: moving every sample (and the query) by the same vector o moves
+       the mean by o and changes NEITHER the projection NOR the embedding: the output magnitude does not
+       grow with a common offset of the data *)
+Theorem C07_offset_invariant :
+  forall (F : Type) (Fo : FieldOps F) (Ff : IsField F) (N D : nat) (P X : mat F) (o m x : vec F),
+    of_nat N <> 0%F ->
+    (forall t, mean_vec N (fun i u => (X i u + o u)%F) t = (mean_vec N X t + o t)%F) /\
+    (forall c, mpi_project D P (fun t => (m t + o t)%F) (fun t => (x t + o t)%F) c = mpi_project D P m x c) /\
+    (forall i c, project_mat D P (mean_vec N (fun i u => (X i u + o u)%F)) (fun i u => (X i u + o u)%F) i c =
+                 project_mat D P (mean_vec N X) X i c).
+Proof. exact @offset_invariant_all. Qed.
+Print Assumptions C07_offset_invariant.
+
+Example C07_offset_invariant_nonvacuous : @of_nat Qc _ 4 <> 0%F.
+Proof. apply Qc_of_nat_neq0. lia. Qed.
+
+(* ... and for the executed loops: the tail of embed() on the moved data returns the SAME embedding and
+   (P, mean + o); the returned function on the moved sample i gives the unchanged row i *)
+Theorem C07_tail_offset_invariant :
+  forall (F : Type) (Fo : FieldOps F) (Ff : IsField F) (N D d : nat) (o : list F) (P Xs : list (list F)),
+    of_nat N <> 0%F -> length o = D -> wf_mat D d P -> wf_mat N D Xs ->
+    exists Y m,
+      projecting_embed_tail D d P Xs = POk (Y, PFMatrix P m) /\
+      projecting_embed_tail D d P (mltrans o Xs) = POk (Y, PFMatrix P (ltrans o m)) /\
+      forall i, i < N ->
+        pf_apply D d (PFMatrix P (ltrans o m)) (ltrans o (nth i Xs [])) = Some (POk (nth i Y [])).
+Proof. exact @projecting_embed_tail_translate. Qed.
+Print Assumptions C07_tail_offset_invariant.
+
+Example C07_tail_offset_nonvacuous :
+  @of_nat Qc _ 4 <> 0%F /\ length [qz (2 ^ 40); qz (-3 * 2 ^ 30); qz 0] = 3 /\ wf_mat 3 2 ex7_P /\ wf_mat 4 3 ex7_X.
+Proof.
+  split; [apply Qc_of_nat_neq0; lia|]. split; [reflexivity|]. split; (split; [reflexivity|repeat constructor]).
+Qed.
+
+(* 15. the decision procedure with a tolerance RELATIVE TO THE OUTPUT,
+          |y_c - (P^T (x - m))_c| <= eps * sum_t |P t c| |x t - m t|,
+       (a) means exactly that, (b) decides the exact specification at eps = 0, (c) implies the absolute
+       procedure whenever eps * A_c <= tol, (d) row-wise form *)
+Theorem C07_decision_rel_sound :
+  (forall D d eps (P : list (list Qc)) (m x y : list Qc),
+      is_projection_rel_b D d eps P m x y = Some true <->
+      (wf_mat D d P /\ length m = D /\ length x = D /\ length y = d) /\
+      forall c, c < d ->
+        (pq_abs (vof y c - mpi_project D (mof P) (vof m) (vof x) c)
+         <= eps * mpi_abs_project D (mof P) (vof m) (vof x) c)%Qc) /\
+  (forall D d (P : list (list Qc)) (m x y : list Qc),
+      is_projection_rel_b D d (Q2Qc 0) P m x y = Some true ->
+      is_projection_of D d (mof P) (vof m) (vof x) (vof y)) /\
+  (forall D d eps tol (P : list (list Qc)) (m x y : list Qc),
+      (forall c, c < d -> (eps * mpi_abs_project D (mof P) (vof m) (vof x) c <= tol)%Qc) ->
+      is_projection_rel_b D d eps P m x y = Some true ->
+      is_projection_tol_b D d tol P m x y = Some true) /\
+  (forall N D d eps (Xs Y P : list (list Qc)) (m : list Qc),
+      rows_rel_b N D d eps Xs Y P m = Some true ->
+      forall i, i < N -> is_projection_rel_b D d eps P m (nth i Xs []) (nth i Y []) = Some true).
+Proof.
+  split; [exact is_projection_rel_b_ok|]. split; [exact is_projection_rel_b_exact|].
+  split; [exact is_projection_rel_implies_tol|exact rows_rel_b_ok].
+Qed.
+Print Assumptions C07_decision_rel_sound.
+
+(* 16. completeness: what the model computes passes for every eps >= 0 — and so does the hoisted rewrite
+       as long as the arithmetic is exact (the exact model cannot distinguish them); (17) a witness that
+       the data-relative absolute tolerance 1e-11 * max|P| * (max|x| + max|m|) * D is blind at offset 2^40
+       to a relative error 2^-13 of the output, which the output-relative procedure rejects *)
+Theorem C07_model_and_hoisted_pass_rel :
+  forall D d eps (P : list (list Qc)) (m x y : list Qc),
+    (Q2Qc 0 <= eps)%Qc -> wf_mat D d P -> length m = D -> length x = D ->
+    (mpi_project_exec D d P m x = POk y -> is_projection_rel_b D d eps P m x y = Some true) /\
+    (mpi_project_hoisted_exec D d P m x = POk y -> is_projection_rel_b D d eps P m x y = Some true).
+Proof.
+  intros D d eps P m x y He HP Hm Hx. split; intros H.
+  - exact (model_passes_rel D d eps P m x y He HP Hm Hx H).
+  - exact (hoisted_passes_rel_in_exact_arithmetic D d eps P m x y He HP Hm Hx H).
+Qed.
+Print Assumptions C07_model_and_hoisted_pass_rel.
+
+Example C07_pass_rel_nonvacuous :
+  (Q2Qc 0 <= ow_eps)%Qc /\ wf_mat 1 1 ow_P /\ length ow_m = 1 /\ length ow_x = 1 /\
+  mpi_project_exec 1 1 ow_P ow_m ow_x = POk [qz 1].
+Proof.
+  split; [vm_compute; discriminate|]. split; [split; [reflexivity|repeat constructor]|].
+  split; [reflexivity|]. split; [reflexivity|].
+  assert (H : match mpi_project_exec 1 1 ow_P ow_m ow_x with
+              | POk y => vlist_eqb y [qz 1] | PDim _ _ _ => false end = true) by (vm_compute; reflexivity).
+  destruct (mpi_project_exec 1 1 ow_P ow_m ow_x) as [y|a b c]; [|discriminate].
+  apply vlist_eqb_ok in H. rewrite H. reflexivity.
+Qed.
+
+Theorem C07_offset_needs_output_relative_tolerance :
+  is_projection_tol_b 1 1 ow_tol_abs ow_P ow_m ow_x ow_y = Some true /\
+  is_projection_rel_b 1 1 ow_eps ow_P ow_m ow_x ow_y = Some false /\
+  is_projection_rel_b 1 1 ow_eps ow_P ow_m ow_x [qz 1] = Some true.
+Proof. exact offset_needs_output_relative_tolerance. Qed.
+Print Assumptions C07_offset_needs_output_relative_tolerance.
